@@ -44,6 +44,7 @@ ASSUMPTIONS = [
     "a via-circuit connection whose circuit fails/closes before its stream is announced is outside the statement (counted only)",
     "whether the attacher is consulted at all for a .exit target is not judged; only that nothing is sent",
     "bounded progress: a via-circuit connect() whose circuit stays BUILT must not fail before even trying its SOCKS endpoint",
+    "a stream that was new while the attacher was installed is owed its decision even if the attacher is removed before its Deferred/coroutine answer arrives (Tor left that stream to the controller)",
     "a stream first heard of when it is already CLOSED/FAILED is not attachable: no decision may be sent for it; a decided stream that later ends (FAILED then CLOSED, DETACHED/FAILED/CLOSED, or CLOSED) gets no further decision",
     "the local port of a via-circuit connection whose SOCKS link died before Tor announced a stream may be handed to a later via-circuit connection through another circuit; that one must be attached to its own circuit",
 ]
@@ -53,7 +54,7 @@ ANCHORS = ["txtorcon.torstate:TorState._maybe_attach", "txtorcon.torstate:TorSta
            "txtorcon.circuit:_CircuitAttacher.attach_stream", "txtorcon.circuit:_CircuitAttacher._add_real_target",
            "txtorcon.circuit:TorCircuitEndpoint.connect", "txtorcon.attacher:PriorityAttacher.attach_stream"]
 FLOORS = {"quick": {"evaluations": 800, "streams_judged": 2500, "via_connections_judged": 600,
-                    "via_connections_on_a_reused_local_port": 30, "events_for_unattached_stream_while_attacher_undecided": 100, "streams_first_seen_already_closed": 80,
+                    "via_connections_on_a_reused_local_port": 30, "events_for_unattached_stream_while_attacher_undecided": 100, "attacher_removed_while_answers_pending": 40, "streams_first_seen_already_closed": 80,
                     "streams_first_seen_already_failed": 80, "decided_streams_ended_by_failed": 300,
                     "reach:txtorcon.torstate:TorState._maybe_attach": 2000,
                     "reach:txtorcon.circuit:_CircuitAttacher.attach_stream": 500},
@@ -428,6 +429,14 @@ def run_answers(case, rec):
             w.stream_event(sid, status, 0, "ghost.example:80", " REASON=END")
             decided_at[sid] = ("nothing", None)
             rec.count("streams_first_seen_already_" + status.lower())
+        elif op == "remove-mid":
+            n0 = len(w.tor.lines)
+            w.state.set_attacher(None, w.reactor)
+            w.pump()
+            rec.count("attacher_removed_while_answers_pending")
+            sc = [l for l in w.tor.lines[n0:] if l.startswith("SETCONF")]
+            if sc != ["SETCONF __LeaveStreamsUnattached=0"]:
+                rec.violation("removal-does-not-tell-tor", "attacher-ops/removed-while-answers-pending", {"lines": sc}, case)
         elif op == "second-attacher":
             alog2 = []
             other = make_attacher(w, {}, alog2)
@@ -462,6 +471,9 @@ def run_answers(case, rec):
             icls = "stream-first-seen-when-already-over"
         elif any(st[0] == "later" and st[1] == sid and st[2] in ("FAILED", "CLOSED") for st in case["steps"]):
             icls += "+stream-ended-later"
+        if ("remove-mid",) in case["steps"] and p["mode"] in ("deferred", "coroutine-await") \
+                and case["steps"].index(("remove-mid",)) < max(i for i, st in enumerate(case["steps"]) if st[0] == "fire" and st[1] == sid):
+            icls += "+attacher-removed-before-answer"
         rec.seen("answer_kinds", "%s/%s/%s" % (p["kind"], p["answer"], p["mode"]))
         if exp[0] == "attach":
             if got != [(sid, exp[1])]:
@@ -549,6 +561,12 @@ def gen_answers_case(rnd, combo=None):
             sid = pend.pop(rnd.randrange(len(pend)))
             steps.append(("fire", sid))
     rnd.shuffle(pend)
+    removed_mid = False
+    if pend and rnd.random() < 0.25:
+        # the application removes its attacher while it still owes answers for parked streams:
+        # those streams arrived while it was installed and Tor left them to the controller
+        steps.append(("remove-mid",))
+        removed_mid = True
     for sid in pend:
         steps.append(("fire", sid))
     for s in streams:
@@ -568,7 +586,7 @@ def gen_answers_case(rnd, combo=None):
         for g in range(rnd.choice([1, 1, 2])):
             steps.insert(rnd.randrange(len(steps) + 1),
                          ("ghost", 70 + g, rnd.choice(["CLOSED", "FAILED"]), rnd.choice(["none", "built", "dna"])))
-    return {"kind": "answers", "streams": streams, "steps": steps, "remove": rnd.random() < 0.4,
+    return {"kind": "answers", "streams": streams, "steps": steps, "remove": rnd.random() < 0.4 and not removed_mid,
             "priority": rnd.choice([0, 0, 2, 5]), "priority_late": rnd.random() < 0.4,
             "remove_before_ack": rnd.random() < 0.2, "chunking": gen.chunking(rnd)}
 
